@@ -265,8 +265,10 @@ class LiteralMarshaller(AbstractMarshaller[LiteralT], tp.Generic[LiteralT]):
         Raises:
             ValueError: If `val` is not a member of the bound `Literal` type.
         """
-        if val in self.values:
-            return val  # type: ignore[return-value]
+        # `1 == True == 1.0 == Decimal(1)`: a member has the class of the literal, too.
+        for member in self.values:
+            if member == val and member.__class__ is val.__class__:
+                return member  # type: ignore[return-value]
 
         raise ValueError(f"{val!r} is not one of {self.values!r}")
 
